@@ -1,6 +1,8 @@
 import AfkakProofs.Consumer.Trace
 import AfkakProofs.Consumer.A5_CR1
-import AfkakProofs.Consumer.A5_TwoRuns3
+import AfkakProofs.Consumer.A5_TwoRuns5
+import AfkakProofs.Consumer.A5_Succ4
+import AfkakProofs.Consumer.A5_Rec2
 import AfkakProps.Open.C03
 /-!
 # C03 — commits never run ahead of successfully processed messages
@@ -62,6 +64,24 @@ example :
         (fun | .ob (.fetch k off _) => some (k, off) | _ => none) = [(1, 42)] := by
   decide +kernel
 
+/-- A block of messages is handed to the processor only after the processing of the previous block SUCCEEDED (the processor
+    returned, or the Deferred it returned fired with a result) or after a `start()`, on every trace (`A5.blkStep`,
+    `AfkakProofs/Consumer/A5_Succ1.lean`): a block whose processing failed, was cancelled, or never finished is the last one
+    of its run - so within one run everything delivered before the block a commit request refers to was processed
+    successfully.  (Stronger than `C03_failure_stops_progress`: also a processor raising CancelledError, a cancelled
+    Deferred, a processor that stops the consumer re-entrantly.) -/
+theorem C03_next_block_after_success (cfg : Cfg) (script : List PEntry) (evs : List Ev) :
+    A5.blocksSucceedOk (trace cfg script evs) = true :=
+  A5.blocksSucceed_trace cfg script evs
+
+/-- An acknowledged commit is recorded: when the consumer takes the success reply to commit request `k` (issued for offset
+    `v`), `last_committed_offset` is `v` once that reply has been handled - whatever the callbacks of the commit Deferreds
+    do in between (shutdown continuations, a further commit) -, on every trace (`C03.ackRecordedOk`,
+    `Afkak/Monitor/C03Store.lean`; until session 5 this monitor was evaluated on implementation traces only). -/
+theorem C03_ack_recorded (cfg : Cfg) (script : List PEntry) (evs : List Ev) :
+    C03.ackRecordedOk (trace cfg script evs) = true :=
+  A5.ackRecorded_trace cfg script evs
+
 /-! ## Two consecutive runs sharing the coordinator's offset store ("a restarted consumer in the same group resumes
 exactly after the last committed message")
 
@@ -113,9 +133,42 @@ theorem C03_two_runs_unacknowledged_commit (log : List Msg) (cfg1 : Cfg) (script
       (A5.committed stored (A5.delivered (trace cfg1 script1 evs1)) ++ A5.delivered (trace cfg2 script2 evs2)) = true :=
   A5.two_runs log cfg1 script1 evs1 cfg2 script2 evs2 stored hf1 hf2 h1 hst h0 h2
 
+/-- The same with every hypothesis on the INPUTS of the two runs (event lists) instead of their traces: run 1 is started
+    once, at `off1`; run 2 is `start(OFFSET_COMMITTED)`, then the coordinator's answer `stored` to its OffsetFetchRequest,
+    then any events other than a further `start()`, an answer to an offset look-up, or a second coordinator answer
+    (`A5.isJumpEv`): fetch replies and errors, processor results, commits and their replies, timers, stop/shutdown, cancel
+    outcomes, in any order.  `A5.oneSegment` / `A5.resumedFrom` then hold of the traces (`A5.oneSegment_of_events`,
+    `A5.resumed_of_events`: every handler only appends observations, `AfkakProofs/Consumer/A5_TwoRuns4.lean`). -/
+theorem C03_two_runs_event_lists (log : List Msg) (cfg1 : Cfg) (script1 : List PEntry) (off1 : Int) (evs1 : List Ev)
+    (cfg2 : Cfg) (script2 : List PEntry) (evs2 : List Ev) (stored : Int)
+    (hf1 : Open.C02.FaithfulLog log cfg1 script1 (.start off1 :: evs1))
+    (hf2 : Open.C02.FaithfulLog log cfg2 script2 (.start Afkak.Consts.offsetCommitted :: .offsetFetchOk 0 stored :: evs2))
+    (hev1 : evs1.all (fun e => !A5.isJumpEv e) = true) (hev2 : evs2.all (fun e => !A5.isJumpEv e) = true)
+    (hst : A5.storeOf (trace cfg1 script1 (.start off1 :: evs1)) = some stored) (h0 : 0 ≤ stored) :
+    (∀ off, A5.firstFetchAfterAnswer
+        (trace cfg2 script2 (.start Afkak.Consts.offsetCommitted :: .offsetFetchOk 0 stored :: evs2)) = some off →
+      off = stored + 1) ∧
+    (∀ y, (A5.delivered (trace cfg2 script2 (.start Afkak.Consts.offsetCommitted :: .offsetFetchOk 0 stored :: evs2))).head? = some y →
+      C02.firstFrom log (stored + 1) = some y) ∧
+    (∃ x ∈ A5.delivered (trace cfg1 script1 (.start off1 :: evs1)), x.off = stored) ∧
+    Open.C02.chainOk log (A5.committed stored (A5.delivered (trace cfg1 script1 (.start off1 :: evs1))) ++
+      A5.delivered (trace cfg2 script2 (.start Afkak.Consts.offsetCommitted :: .offsetFetchOk 0 stored :: evs2))) = true :=
+  A5.two_runs_events log cfg1 script1 off1 evs1 cfg2 script2 evs2 stored hf1 hf2 hev1 hev2 (A5.storeOf_mem _ _ hst) h0
+
+/-- "Processed successfully AND committed": in a run that delivers in one segment against a faithful log, every message
+    handed to the processor at or below the offset of ANY commit request of the run (so: at or below what the coordinator
+    can hold afterwards) belongs to a block whose processing SUCCEEDED (`A5.succeeded`: the processor returned, or the
+    Deferred it returned fired with a result).  With `C03_two_runs_exactly_once_committed`: the part of run 1 that the
+    two-run chain keeps (`A5.committed stored …`) consists of successfully processed messages only. -/
+theorem C03_committed_were_processed (log : List Msg) (cfg : Cfg) (script : List PEntry) (evs : List Ev)
+    (hf : Open.C02.FaithfulLog log cfg script evs) (h1 : A5.oneSegment (trace cfg script evs) = true)
+    (stored : Int) (hst : stored ∈ A5.commitOffs (trace cfg script evs)) :
+    ∀ y ∈ A5.committed stored (A5.delivered (trace cfg script evs)), y ∈ A5.succeeded (trace cfg script evs) :=
+  A5.committed_succeeded log cfg script evs hf h1 stored hst
+
 /-! Non-vacuity: run 1 delivers offsets 0-1, commits 1 (acknowledged), then delivers 2 and ends without committing it; run 2
-starts from the committed position, the coordinator answers 1, it fetches at 2 and delivers 2-3.  Every hypothesis holds;
-committed ++ run 2 = the log. -/
+starts from the committed position, the coordinator answers 1, it fetches at 2 and delivers 2-3.  Every hypothesis (of the trace-level
+and of the event-list-level theorem) holds; committed ++ run 2 = the log. -/
 example :
     let log : List Msg := [⟨0, 10⟩, ⟨1, 11⟩, ⟨2, 12⟩, ⟨3, 13⟩]
     let cfg : Cfg := { group := true, autoN := 0, autoS := 0, bufInit := 100, bufMax := none, retryInit := 1, retryMax := 2,
@@ -127,11 +180,28 @@ example :
     Open.C02.FaithfulLog log cfg [] evs1 ∧ Open.C02.FaithfulLog log cfg [] evs2 ∧
       A5.oneSegment (trace cfg [] evs1) = true ∧ A5.storeOf (trace cfg [] evs1) = some 1 ∧
       A5.resumedFrom 1 (trace cfg [] evs2) = true ∧
+      evs1.tail.all (fun e => !A5.isJumpEv e) = true ∧ (evs2.drop 2).all (fun e => !A5.isJumpEv e) = true ∧
       A5.delivered (trace cfg [] evs1) = [⟨0, 10⟩, ⟨1, 11⟩, ⟨2, 12⟩] ∧
       A5.firstFetchAfterAnswer (trace cfg [] evs2) = some 2 ∧
+      A5.commitOffs (trace cfg [] evs1) = [1] ∧ A5.succeeded (trace cfg [] evs1) = [⟨0, 10⟩, ⟨1, 11⟩, ⟨2, 12⟩] ∧
       A5.committed 1 (A5.delivered (trace cfg [] evs1)) ++ A5.delivered (trace cfg [] evs2) = log := by
   refine ⟨A.faithfulB_sound _ _ _ _ (by decide +kernel), A.faithfulB_sound _ _ _ _ (by decide +kernel), by decide +kernel,
-    by decide +kernel, by decide +kernel, by decide +kernel, by decide +kernel, by decide +kernel⟩
+    by decide +kernel, by decide +kernel, by decide +kernel, by decide +kernel, by decide +kernel, by decide +kernel,
+    by decide +kernel, by decide +kernel, by decide +kernel⟩
+
+/-! Non-vacuity of `C03_committed_were_processed`, with a block that fails: blocks of one message, the first is processed and
+committed (by count), the second makes the processor raise: delivered but not succeeded, and above the committed offset. -/
+example :
+    let log : List Msg := [⟨0, 10⟩, ⟨1, 11⟩]
+    let cfg : Cfg := { group := true, autoN := 1, autoS := 0, bufInit := 100, bufMax := none, retryInit := 1, retryMax := 2,
+                       maxAttempts := 0, reset := none }
+    let script : List PEntry := [⟨[], .ok⟩, ⟨[], .err .kafka 7⟩]
+    let evs : List Ev := [.start 0, .fetchOk 0 { msgs := [⟨0, 10⟩, ⟨1, 11⟩], tail := .done }]
+    Open.C02.FaithfulLog log cfg script evs ∧ A5.oneSegment (trace cfg script evs) = true ∧
+      A5.commitOffs (trace cfg script evs) = [0] ∧ A5.delivered (trace cfg script evs) = [⟨0, 10⟩, ⟨1, 11⟩] ∧
+      A5.succeeded (trace cfg script evs) = [⟨0, 10⟩] := by
+  refine ⟨A.faithfulB_sound _ _ _ _ (by decide +kernel), by decide +kernel, by decide +kernel, by decide +kernel,
+    by decide +kernel⟩
 
 end Afkak.Props.C03
 
@@ -143,8 +213,12 @@ C03_resume
 C03_failure_stops_progress
 C03_crash_safe
 C03_commit_reports
+C03_next_block_after_success
+C03_ack_recorded
 C03_two_runs_exactly_once_committed
 C03_two_runs_unacknowledged_commit
+C03_two_runs_event_lists
+C03_committed_were_processed
 -/
 /- OPEN_STATEMENTS
 -/
